@@ -117,6 +117,17 @@ class SliceRef:
         return 'Slice(n=%d, start=%s, len=%s)' % (len(self.backing), self.start, self.length)
 
 
+class MutSliceRef:
+    """A `&mut [T]` covering the whole array stored at (cell, path)."""
+    __slots__ = ('cell', 'path', 'length')
+
+    def __init__(self, cell, path, length):
+        self.cell, self.path, self.length = cell, tuple(path), length
+
+    def __repr__(self):
+        return '&mut [..](%r%r, len=%s)' % (self.cell, self.path, self.length)
+
+
 class Opaque:
     __slots__ = ('tag',)
 
@@ -147,6 +158,18 @@ class Model:
 
 def bv(v, w):
     return z3.BitVecVal(v, w)
+
+
+SIMPLIFY_STEPS = 20000
+
+
+def zsimp(e):
+    """z3.simplify with a step budget: on large ite-DAGs the rewriter can take exponential time;
+    an incompletely simplified term is still an equivalent term."""
+    try:
+        return z3.simplify(e, max_steps=SIMPLIFY_STEPS)
+    except z3.Z3Exception:
+        return e
 
 
 def is_z3(v):
@@ -260,6 +283,10 @@ def _ite_val(g, a, b, memo):
         if a.cell == b.cell and a.path == b.path:
             return a
         raise Unsupported("merge of distinct mutable references %r / %r" % (a, b))
+    if isinstance(a, MutSliceRef) and isinstance(b, MutSliceRef):
+        if a.cell == b.cell and a.path == b.path:
+            return MutSliceRef(a.cell, a.path, zite(g, a.length, b.length))
+        raise Unsupported("merge of distinct mutable slices")
     if isinstance(a, SliceRef) and isinstance(b, SliceRef):
         if len(a.backing) == len(b.backing) and all(same(x, y) for x, y in zip(a.backing, b.backing)):
             return SliceRef(a.backing, zite(g, a.start, b.start), zite(g, a.length, b.length))
@@ -340,6 +367,7 @@ class CFG:
             else:
                 s = []
             self.succ[bb] = list(dict.fromkeys(s))
+        self._liveness(fn)
         # iterative DFS for RPO and back edges
         self.rpo = []
         color = {}
@@ -394,17 +422,125 @@ class CFG:
             self.parent[h] = best
 
 
+def _place_root(p):
+    while p[0] != 'local':
+        p = p[1]
+    return p[1]
+
+
+def _place_locals(p, acc):
+    """All locals mentioned by a place (root and dynamic indices)."""
+    while p[0] != 'local':
+        if p[0] == 'index':
+            acc.add(p[2])
+        p = p[1]
+    acc.add(p[1])
+
+
+def _operand_uses(op, acc):
+    if op[0] in ('copy', 'move'):
+        _place_locals(op[1], acc)
+
+
+def _rvalue_uses(rv, uses, addr):
+    k = rv[0]
+    if k == 'use':
+        _operand_uses(rv[1], uses)
+    elif k in ('ref', 'rawptr'):
+        _place_locals(rv[2], uses)
+        addr.add(_place_root(rv[2]))
+    elif k == 'cast':
+        _operand_uses(rv[1], uses)
+    elif k == 'binop':
+        _operand_uses(rv[2], uses)
+        _operand_uses(rv[3], uses)
+    elif k == 'unop':
+        _operand_uses(rv[2], uses)
+    elif k in ('discriminant', 'len'):
+        _place_locals(rv[1], uses)
+    elif k in ('tuple', 'array'):
+        for o in rv[1]:
+            _operand_uses(o, uses)
+    elif k == 'repeat':
+        _operand_uses(rv[1], uses)
+    elif k in ('adt', 'closure'):
+        for _, o in rv[2]:
+            _operand_uses(o, uses)
+
+
+def _cfg_liveness(self, fn):
+    """Backward liveness of locals; address-taken locals are treated as always live."""
+    use, deff = {}, {}
+    addr = set()
+    for bb in fn.blocks:
+        u, d = set(), set()
+        for st in parsed_block(fn, bb):
+            su, sd = set(), set()
+            k = st[0]
+            if k == 'assign':
+                _rvalue_uses(st[2], su, addr)
+                if st[1][0] == 'local':
+                    sd.add(st[1][1])
+                else:
+                    _place_locals(st[1], su)
+            elif k == 'switch':
+                _operand_uses(st[1], su)
+            elif k == 'call':
+                for o in st[3]:
+                    _operand_uses(o, su)
+                if st[1] is not None:
+                    if st[1][0] == 'local':
+                        sd.add(st[1][1])
+                    else:
+                        _place_locals(st[1], su)
+            elif k == 'drop':
+                _place_locals(st[1], su)
+            elif k == 'assert':
+                _operand_uses(st[1], su)
+            elif k == 'setdiscr':
+                _place_locals(st[1], su)
+            elif k == 'return':
+                su.add(0)
+            u |= (su - d)
+            d |= sd
+        use[bb], deff[bb] = u, d
+    live_in = {bb: set(use[bb]) for bb in fn.blocks}
+    changed = True
+    order = sorted(fn.blocks, reverse=True)
+    while changed:
+        changed = False
+        for bb in order:
+            out = set()
+            for s_ in self.succ[bb]:
+                out |= live_in[s_]
+            new = use[bb] | (out - deff[bb])
+            if new != live_in[bb]:
+                live_in[bb] = new
+                changed = True
+    self.live_in = live_in
+    self.addr_taken = addr
+
+
+CFG._liveness = _cfg_liveness
+
+
 class State:
     """mem: cell -> value.  dom: name of a symbolic discriminant variable -> frozenset of values it can
     still take on this path (a cheap abstract domain used to prune switch targets without the solver)."""
-    __slots__ = ('mem', 'dom')
+    __slots__ = ('mem', 'dom', 'ckey')
 
-    def __init__(self, mem=None, dom=None):
+    def __init__(self, mem=None, dom=None, ckey=None):
         self.mem = mem if mem is not None else {}
         self.dom = dom if dom is not None else {}
+        # ckey: cell -> concrete int.  States are merged only if their ckeys are equal; models use it
+        # for cursor-like values (iterator positions) that must stay concrete to keep terms small.
+        self.ckey = ckey if ckey is not None else {}
 
     def copy(self):
-        return State(dict(self.mem), dict(self.dom))
+        return State(dict(self.mem), dict(self.dom), dict(self.ckey))
+
+    def key(self):
+        return tuple(sorted(self.ckey.items())) if self.ckey else ()
 
 
 def merge_states(items):
@@ -441,7 +577,7 @@ def merge_states(items):
             u = u | d2
         if u is not None:
             dom[name] = u
-    return g_total, State(out, dom)
+    return g_total, State(out, dom, dict(items[0][1].ckey))
 
 
 class Executor:
@@ -452,6 +588,10 @@ class Executor:
         self.prune_switch = False      # solver-based pruning of switch targets (slow; off)
         self.base_dom = {}
         self.memo_pure = True
+        self.var_bounds = {}           # name of a bit-vector variable -> (lo, hi) known from the harness precondition
+        self.key_cursors = True        # never merge states that disagree on a concrete usize local
+        self.solver_pruning = False    # ask the solver whether a guard is satisfiable before exploring (slow)
+        self.use_liveness = True
         self.pure_cache = {}
         self.call_depth = call_depth
         self.obligations = []          # (kind, guard, msg)
@@ -480,7 +620,7 @@ class Executor:
         self.solver.add(c)
 
     def oblige(self, kind, guard, msg):
-        g = z3.simplify(guard) if not (z3.is_true(guard) or z3.is_false(guard)) else guard
+        g = zsimp(guard) if not (z3.is_true(guard) or z3.is_false(guard)) else guard
         if z3.is_false(g):
             return
         self.obligations.append((kind, g, msg))
@@ -490,10 +630,12 @@ class Executor:
             return False
         if z3.is_true(guard):
             return True
-        g = z3.simplify(guard)
+        g = zsimp(guard)
         if z3.is_false(g):
             return False
         if z3.is_true(g):
+            return True
+        if not self.solver_pruning:
             return True
         self.stats['feasibility_queries'] += 1
         self.solver.push()
@@ -621,7 +763,7 @@ class Executor:
             return r.val
         if isinstance(r, PlaceRef):
             return self.read_ref(st, r)
-        if isinstance(r, SliceRef):
+        if isinstance(r, (SliceRef, MutSliceRef)):
             return r
         if isinstance(r, (BoxV, BoxPtr)):
             if r.content is None:
@@ -698,9 +840,9 @@ class Executor:
 
     def index_value(self, base, idx):
         """base[idx] with idx a 64-bit term."""
-        idx = z3.simplify(idx) if is_z3(idx) else bv(idx, 64)
+        idx = zsimp(idx) if is_z3(idx) else bv(idx, 64)
         if isinstance(base, SliceRef):
-            pos = z3.simplify(base.start + idx)
+            pos = zsimp(base.start + idx)
             return select(base.backing, pos)
         if isinstance(base, Agg):
             return select(base.fields, idx)
@@ -714,7 +856,7 @@ class Executor:
         if k == 'deref':
             inner = p[1]
             r = self.read_place(st, frame, fn, inner)
-            if isinstance(r, PlaceRef):
+            if isinstance(r, (PlaceRef, MutSliceRef)):
                 return r.cell, r.path
             if isinstance(r, (BoxV, BoxPtr)):
                 c, path = self.resolve(st, frame, fn, inner)
@@ -786,7 +928,7 @@ class Executor:
             raise Unsupported("update through %s" % type(base).__name__)
         if k == 'idx':
             if isinstance(base, Agg):
-                i = z3.simplify(step[1])
+                i = zsimp(step[1])
                 if z3.is_bv_value(i):
                     n = i.as_long()
                     if n >= len(base.fields):
@@ -802,8 +944,43 @@ class Executor:
         raise Unsupported("update step %r" % (step,))
 
     def write_place(self, st, frame, fn, p, val):
+        if p[0] == 'local':
+            cell = (frame, p[1])
+            st.mem[cell] = val
+            if p[1] in self.cursor_locals(fn):
+                # cursor-like locals (usize) are kept concrete: states that disagree on them are not merged
+                if isinstance(val, Agg):
+                    # (usize, bool) result of checked arithmetic: the cursor lives in field 0 for a moment
+                    r = val.fields[0]
+                    r2 = zsimp(r) if is_z3(r) else r
+                    if is_z3(r2) and z3.is_bv_value(r2):
+                        st.mem[cell] = Agg((r2,) + tuple(val.fields[1:]), val.tag)
+                        st.ckey[cell] = r2.as_long()
+                    else:
+                        st.ckey.pop(cell, None)
+                    return
+                if is_z3(val) and z3.is_bv_value(val):
+                    st.ckey[cell] = val.as_long()
+                else:
+                    v2 = zsimp(val) if is_z3(val) else val
+                    if is_z3(v2) and z3.is_bv_value(v2):
+                        st.mem[cell] = v2
+                        st.ckey[cell] = v2.as_long()
+                    else:
+                        st.ckey.pop(cell, None)
+            return
         c, path = self.resolve(st, frame, fn, p)
         self.write_cell(st, c, path, val)
+
+    def cursor_locals(self, fn):
+        c = getattr(fn, '_cursor_locals', None)
+        if c is None:
+            c = frozenset(n for n, t in fn.locals.items() if t in ('usize', '(usize, bool)')) if self.key_cursors else frozenset()
+            try:
+                fn._cursor_locals = c
+            except AttributeError:
+                pass
+        return c
 
     # ------------------------------------------------------------------ constants
     def eval_const(self, text, fn=None):
@@ -826,6 +1003,11 @@ class Executor:
             if m.group(2) == 'MAX':
                 return bv((1 << (w - 1)) - 1 if s else (1 << w) - 1, w)
             return bv(-(1 << (w - 1)) if s else 0, w)
+        if t.startswith('ZeroSized: '):
+            ty = t[len('ZeroSized: '):].strip()
+            if ty.startswith('{closure@'):
+                return Agg([], ty)
+            return Agg([], strip_paths(base_name(ty)))
         if t.startswith('"'):
             b = _unescape(t[1:-1]).encode('utf-8', 'surrogatepass')
             return SliceRef([bv(x, 8) for x in b], bv(0, 64), bv(len(b), 64))
@@ -839,9 +1021,14 @@ class Executor:
             return bv(_unescape_bytes(t[2:-1])[0], 8)
         # named constants and promoteds present in the dump
         key = re.sub(r'::<[^<>]*(?:<[^<>]*>[^<>]*)*>', '', t)
-        for cand in (t, key):
-            if cand in self.dump.const_index:
-                return self.eval_const_body(cand)
+        for cand0 in (t, key):
+            segs = cand0.split('::') if '<' not in cand0 else [cand0]
+            for k in range(len(segs)):
+                cand = '::'.join(segs[k:])
+                if cand in self.dump.const_index and len(self.dump.const_index[cand]) == 1:
+                    return self.eval_const_body(cand)
+                if cand in self.dump.const_literals:
+                    return self.eval_const(self.dump.const_literals[cand][0])
         # unit-like ADT constants:  Path::Variant  /  Path::<T>::Variant(Unit)
         try:
             from mirparse import parse_rvalue
@@ -877,11 +1064,20 @@ class Executor:
         if k == 'local':
             v = st.mem.get((frame, p[1]))
             if v is None:
+                ty = fn.locals.get(p[1], '')
+                if ty.startswith('{closure@'):
+                    return Agg([], ty)          # capture-less closure: zero-sized, never assigned in MIR
+                if ty == '()':
+                    return UNIT
                 raise Unsupported("read of uninitialised local _%d in %s" % (p[1], fn.name))
             return v
         if k == 'deref':
             return self.deref(st, self.read_place_full(st, frame, fn, p[1]))
         base = self.read_place_full(st, frame, fn, p[1])
+        if isinstance(base, MutSliceRef) and k in ('index', 'constindex'):
+            arr = self.read_ref(st, PlaceRef(base.cell, base.path))
+            idx = st.mem[(frame, p[2])] if k == 'index' else bv(p[2], 64)
+            return self.index_value(arr, idx)
         if k == 'index':
             return self.index_value(base, st.mem[(frame, p[2])])
         v = self.project(st, base, p, fn)
@@ -919,16 +1115,20 @@ class Executor:
         if k == 'ref':
             mut, p = rv[1], rv[2]
             if mut:
+                if p[0] == 'deref':
+                    r0 = self.read_place_full(st, frame, fn, p[1])
+                    if isinstance(r0, MutSliceRef):
+                        return r0
                 c, path = self.resolve(st, frame, fn, p)
                 return PlaceRef(c, path)
             v = self.read_place_full(st, frame, fn, p)
-            if isinstance(v, SliceRef) and p[0] == 'deref':
+            if isinstance(v, (SliceRef, MutSliceRef)) and p[0] == 'deref':
                 return v
             return ValRef(v)
         if k == 'rawptr':
             mut, p = rv[1], rv[2]
             v = self.read_place_full(st, frame, fn, p)
-            if isinstance(v, SliceRef):
+            if isinstance(v, (SliceRef, MutSliceRef)):
                 return v
             return ValRef(v)
         if k == 'cast':
@@ -945,7 +1145,7 @@ class Executor:
             if rv[1] == 'Neg':
                 return -a
             if rv[1] == 'PtrMetadata':
-                if isinstance(a, SliceRef):
+                if isinstance(a, (SliceRef, MutSliceRef)):
                     return a.length
                 raise Unsupported("PtrMetadata of %s" % type(a).__name__)
         if k == 'discriminant':
@@ -969,7 +1169,7 @@ class Executor:
         if k == 'repeat':
             v = self.eval_operand(st, frame, fn, rv[1])
             n = self.eval_const(rv[2].replace('const ', '')) if not rv[2].strip().isdigit() else bv(int(rv[2]), 64)
-            n = z3.simplify(n).as_long()
+            n = zsimp(n).as_long()
             if n > 4096:
                 raise Unsupported("array repeat of %d" % n)
             return Agg([v] * n, 'array')
@@ -1006,8 +1206,12 @@ class Executor:
         if kind.startswith('PointerCoercion(Unsize'):
             if isinstance(v, ValRef) and isinstance(v.val, Agg):
                 return SliceRef(v.val.fields, bv(0, 64), bv(len(v.val.fields), 64))
-            if isinstance(v, SliceRef):
+            if isinstance(v, (SliceRef, MutSliceRef)):
                 return v
+            if isinstance(v, PlaceRef):
+                arr = self.read_ref(st, v)
+                if isinstance(arr, Agg):
+                    return MutSliceRef(v.cell, v.path, bv(len(arr.fields), 64))
             if 'dyn ' in ty:
                 return Opaque('dyn')
             raise Unsupported("unsize of %s" % type(v).__name__)
@@ -1072,6 +1276,10 @@ class Executor:
             return a == b
         if op == 'Ne':
             return a != b
+        if op in ('Lt', 'Le', 'Gt', 'Ge') and not signed and self.var_bounds:
+            d = self.decide_cmp(op, a, b)
+            if d is not None:
+                return z3.BoolVal(d)
         if op == 'Lt':
             return (a < b) if signed else z3.ULT(a, b)
         if op == 'Le':
@@ -1101,6 +1309,31 @@ class Executor:
             return Agg([r, ovf])
         raise Unsupported("binop %s" % op)
 
+    def interval(self, t):
+        """(lo, hi) of an unsigned term if it is a constant or a hinted variable, else None."""
+        if z3.is_bv_value(t):
+            return t.as_long(), t.as_long()
+        if z3.is_const(t) and t.decl().kind() == z3.Z3_OP_UNINTERPRETED:
+            return self.var_bounds.get(t.decl().name())
+        return None
+
+    def decide_cmp(self, op, a, b):
+        """Decide an unsigned comparison from the harness' variable bounds (sound: the bounds are also
+        asserted as assumptions), or None."""
+        ia, ib = self.interval(a), self.interval(b)
+        if ia is None or ib is None:
+            return None
+        (alo, ahi), (blo, bhi) = ia, ib
+        if op == 'Lt':
+            return True if ahi < blo else (False if alo >= bhi else None)
+        if op == 'Le':
+            return True if ahi <= blo else (False if alo > bhi else None)
+        if op == 'Gt':
+            return True if alo > bhi else (False if ahi <= blo else None)
+        if op == 'Ge':
+            return True if alo >= bhi else (False if ahi < blo else None)
+        return None
+
     # ------------------------------------------------------------------ execution
     def cfg(self, fn):
         c = self.cfgs.get(id(fn))
@@ -1109,7 +1342,30 @@ class Executor:
         return c
 
     def call_function(self, fn, args, guard, st):
-        """Inline fn. Returns (guard_after, return value); st is updated in place.
+        """Inline fn and merge all its return paths. Returns (guard_after, return value); st is updated
+        in place."""
+        outs = self.call_function_multi(fn, args, guard, st)
+        if not outs:
+            return z3.BoolVal(False), None
+        if len(outs) == 1:
+            g, v, st2 = outs[0]
+        else:
+            # merge the outcomes, return value included
+            tmp = ('ret', id(outs))
+            items = []
+            for g_, v_, s_ in outs:
+                s_.mem[tmp] = v_ if v_ is not None else UNIT
+                items.append((g_, s_))
+            g, st2 = merge_states(items)
+            v = st2.mem.pop(tmp)
+            st2.ckey = {}
+        if st2 is not st:
+            st.mem, st.dom, st.ckey = st2.mem, st2.dom, st2.ckey
+        return g, v
+
+    def call_function_multi(self, fn, args, guard, st):
+        """Inline fn. Returns a list of outcomes (guard, return value, state): return paths that disagree
+        on a concrete cursor value (or return different concrete usize values) stay separate.
         Calls whose arguments are all immutable values (no &mut) are pure: they are executed once
         under the guard `true` and the summary (ok-condition, value, obligations) is reused."""
         if self.memo_pure and not isinstance(fn, ClosureAdapter):
@@ -1118,18 +1374,19 @@ class Executor:
                 hit = self.pure_cache.get(key)
                 if hit is None:
                     n_ob = len(self.obligations)
-                    st2 = State({}, {})
-                    g0, v0 = self._call_function(fn, args, z3.BoolVal(True), st2)
+                    outs0 = self._call_function(fn, args, z3.BoolVal(True), State({}, {}))
                     obs = self.obligations[n_ob:]
                     del self.obligations[n_ob:]
-                    hit = (g0, v0, obs, args)
+                    hit = ([(g0, v0) for g0, v0, _ in outs0], obs, args)
                     self.pure_cache[key] = hit
                 else:
                     self.stats['memo_hits'] += 1
-                g0, v0, obs, _keep = hit
+                outs0, obs, _keep = hit
                 for kind, og, msg in obs:
                     self.oblige(kind, zand(guard, og), msg)
-                return zand(guard, g0), v0
+                if len(outs0) == 1:
+                    return [(zand(guard, outs0[0][0]), outs0[0][1], st)]
+                return [(zand(guard, g0), v0, st.copy()) for g0, v0 in outs0]
         return self._call_function(fn, args, guard, st)
 
     def _call_function(self, fn, args, guard, st):
@@ -1152,17 +1409,27 @@ class Executor:
                 if key != 'return':
                     raise Unsupported("stray exit %r from %s" % (key, fn.name))
             if not rets:
-                return z3.BoolVal(False), None
-            g, rst = merge_states(rets)
-            ret = rst.mem.get((frame, 0))
-            if ret is None:
-                ret = UNIT
-            # drop the frame
-            st.mem.clear()
-            for k, v in rst.mem.items():
-                if k[0] != frame:
-                    st.mem[k] = v
-            return g, ret
+                return []
+            # group the return states: caller-visible cursor keys plus a concrete usize return value
+            groups = {}
+            ret_is_cursor = 0 in self.cursor_locals(fn)
+            for g_, s_ in rets:
+                s_.ckey = {k: v for k, v in s_.ckey.items() if k[0] != frame or (k[1] == 0 and ret_is_cursor)}
+                groups.setdefault(s_.key(), []).append((g_, s_))
+            outs = []
+            first = True
+            for gk in sorted(groups):
+                g, rst = merge_states(groups[gk])
+                ret = rst.mem.get((frame, 0))
+                if ret is None:
+                    ret = UNIT
+                target = st if first else State()
+                first = False
+                target.mem = {k: v for k, v in rst.mem.items() if k[0] != frame}
+                target.ckey = {k: v for k, v in rst.ckey.items() if k[0] != frame}
+                target.dom = rst.dom
+                outs.append((g, ret, target))
+            return outs
         finally:
             self.stack.pop()
 
@@ -1194,14 +1461,26 @@ class Executor:
             items = inc.pop(b, None)
             if not items:
                 continue
-            if b == header and not first:
-                raise Unsupported("header re-entered")
-            first = False
-            g, s = merge_states(items)
-            if z3.is_false(g):
-                continue
-            for (t, g2, s2) in self.exec_block(fn, frame, b, g, s):
-                self._deliver(cfg, header, blocks, inc, exits, t, g2, s2)
+            if self.use_liveness:
+                live = cfg.live_in[b]
+                keep = cfg.addr_taken
+                for _, s_ in items:
+                    dead = [k for k in s_.mem if k[0] == frame and k[1] not in live and k[1] not in keep]
+                    for k in dead:
+                        del s_.mem[k]
+                        s_.ckey.pop(k, None)
+            groups = {}
+            if len(items) > 1:
+                for it in items:
+                    groups.setdefault(it[1].key(), []).append(it)
+            else:
+                groups[()] = items
+            for gk in sorted(groups):
+                g, s = merge_states(groups[gk])
+                if z3.is_false(g):
+                    continue
+                for (t, g2, s2) in self.exec_block(fn, frame, b, g, s):
+                    self._deliver(cfg, header, blocks, inc, exits, t, g2, s2)
         return exits
 
     def _deliver(self, cfg, header, blocks, inc, exits, t, g, s):
@@ -1256,6 +1535,11 @@ class Executor:
             return
         if k == 'assign':
             v = self.eval_rvalue(st, frame, fn, s[2])
+            if s[2][0] == 'discriminant':
+                # the discriminant has the enum's repr type (u8 for #[repr(u8)], isize by default)
+                ii = int_info(self.type_of_place(fn, s[1]))
+                if ii and ii[0] != v.size():
+                    v = zsimp(z3.Extract(ii[0] - 1, 0, v))
             self.write_place(st, frame, fn, s[1], v)
             return
         if k == 'setdiscr':
@@ -1301,7 +1585,7 @@ class Executor:
                         self.stats['pruned_branches'] += 1
                         continue
                     seen_vals.add(val if val in dom else sval)
-                c = z3.simplify(c)
+                c = zsimp(c)
                 if z3.is_false(c):
                     continue
                 taken.append(c)
@@ -1335,13 +1619,17 @@ class Executor:
         if k == 'call':
             dest, callee, args, ret_bb = t[1], t[2], t[3], t[4]
             argv = [self.eval_operand(st, frame, fn, a) for a in args]
-            g2, rv = self.do_call(fn, callee, argv, guard, st)
-            if ret_bb is None or z3.is_false(g2):
-                return []
-            if rv is None:
-                rv = UNIT
-            self.write_place(st, frame, fn, dest, rv)
-            return [(ret_bb, g2, st)]
+            res = self.do_call(fn, callee, argv, guard, st)
+            outcomes = res if isinstance(res, list) else [(res[0], res[1], st)]
+            edges = []
+            for g2, rv, st2 in outcomes:
+                if ret_bb is None or z3.is_false(g2):
+                    continue
+                if rv is None:
+                    rv = UNIT
+                self.write_place(st2, frame, fn, dest, rv)
+                edges.append((ret_bb, g2, st2))
+            return edges
         if k == 'assign':
             # block without explicit terminator cannot happen
             raise Unsupported("block ends with assignment")
@@ -1357,7 +1645,7 @@ class Executor:
         target = self.resolve_callee(callee, argv)
         if target is None:
             raise Unsupported("call to %s (from %s): no model and not in the dump" % (callee[:140], fn.name))
-        return self.call_function(target, argv, guard, st)
+        return self.call_function_multi(target, argv, guard, st)
 
     def add_model(self, pattern, handler, label=None):
         self.models.append((re.compile(pattern), handler, label or pattern))
@@ -1554,7 +1842,7 @@ def _resize(v, sw, dw, signed):
 def select(elems, idx):
     """elems[idx] with a symbolic 64-bit idx (out-of-range reads yield the last element; callers
     guard accesses with explicit bound checks)."""
-    idx = z3.simplify(idx)
+    idx = zsimp(idx)
     n = len(elems)
     if n == 0:
         raise PathAbort('index', 'index into empty backing store')
